@@ -109,6 +109,8 @@ class Nist(Cont):
         out.append(("add-nbytes", build(body + b"sample_n_bytes -i 2\nend_head\n")))
         out.append(("add-coding", build(body + b"sample_coding -s4 alaw\nend_head\n")))
         out.append(("interleaved", build(body + b"channels_interleaved -s5 FALSE\nend_head\n")))
+        out.append(("interleaved-sp", build(body + b"channels_interleaved -s5 FALSE end_head\n")))      # the key is a substring test: no newline needed
+        out.append(("interleaved-x", build(body + b"channels_interleaved -s5 FALSEend_head\n")))
         out.append(("interleaved-true", build(body + b"channels_interleaved -s4 TRUE\nend_head\n")))
         out.append(("interleaved-late", build(body + b"end_head\nchannels_interleaved -s5 FALSE\n")))
         out.append(("late-chan", build(body + b"end_head\nchannel_count -i 7\n")))
